@@ -42,6 +42,9 @@ func jitter() {
 	}
 }
 
+// Yield is a scheduling point inserted (by build overlay) into code that runs between lock operations.
+func Yield() { jitter() }
+
 type Mutex struct{ mu sync.Mutex }
 
 func (m *Mutex) Lock()   { jitter(); m.mu.Lock(); jitter() }
